@@ -45,7 +45,7 @@ KANI_URL_LOCALE = {
     "quick": ["%s::%s" % (m, h) for m in _C14_LENS[:6] for h in ("precondition_satisfiable", "root", "base")],
     "thorough": ["%s::%s" % (m, h) for m in _C14_LENS for h in ("precondition_satisfiable", "root", "base")],
     "timeout": 1800,
-    "procs": 10,
+    "procs": 6,
     "target_tag": "c14",
     "bounded": "paths of at most 5 (quick) / 7 (thorough) characters after the base path, over the characters of the "
                "locale names, `/` and one other letter; locales en, en-US, fr in both listing orders; base paths "
@@ -53,7 +53,7 @@ KANI_URL_LOCALE = {
     "source_hint": "leptos_i18n_router/src/routing.rs",
 }
 
-_PO = ["po_1_1", "po_2_1", "po_1_2", "po_2_2", "po_3_1", "po_3_2"]
+_PO = ["po_1_1", "po_2_1", "po_1_2", "po_2_2", "po_3_1", "po_3_2", "po_2_3", "po_3_3"]
 KANI_NEGOTIATION = {
     "name": "c12_kani_negotiation",
     "cwd": lambda repo, root: __import__("os").path.join(root, "kani-crates", "c12"),
@@ -66,11 +66,11 @@ KANI_NEGOTIATION = {
                                                                        for h in ("precondition_satisfiable", "check")],
     "thorough": ["matching_predicate", "model_tail_sort", "concrete_d5"] + ["%s::%s" % (m, h) for m in _PO
                                                                           for h in ("precondition_satisfiable", "check")],
-    "timeout": 1200,
+    "timeout": 3000,
     "procs": 8,
     "target_tag": "c12",
-    "bounded": "at most 3 supported locales and 2 requested languages; subtags over a closed universe (2 languages + "
-               "und, 2 scripts, 2 regions, at most one variant out of 2)",
+    "bounded": "at most 3 supported locales and 2 (quick) / 3 (thorough) requested languages; subtags over a closed "
+               "universe (2 languages + und, 2 scripts, 2 regions, at most one variant out of 2)",
     "source_hint": "leptos_i18n/src/langid.rs",
 }
 
